@@ -545,4 +545,8 @@ def pathJoin (a b : List Char) : List Char :=
   if b.head? == some '/' then pathStr b
   else if a.getLast? == some '/' then pathStr (a ++ b) else pathStr (a ++ ['/'] ++ b)
 
+/-- `format(d, fmt)` of a binary32 distance: only the format the distance matrix is written with is modelled -/
+def formatKnown (fmt : List Char) : Bool := fmt == "0.4f".toList
+def formatScore (_fmt : List Char) (b : UInt32) : List Char := (GambitV.F32.fmt4 b).toList
+
 end GambitV.Py
